@@ -367,6 +367,8 @@ class IntTr:
             tx = [a[0] for a in args]
             if fn == "array" and len(args) == 1 and not kw and tys[0] in ("vec", "mat", "bvec"):
                 return tx[0], tys[0]      # np.array(x): a fresh copy; values are immutable in the model
+            if fn == "unique" and tys == ["vec"] and not kw:
+                return f"(np_unique {tx[0]})", "vec"
             if fn == "arange" and tys == ["int", "int"] and not kw:
                 return f"(np_arange {tx[0]} {tx[1]})", "vec"
             if fn == "isin" and tys == ["vec", "vec"] and not kw:
